@@ -343,6 +343,52 @@ func runC03(c any, x *kit.Ctx) {
 			cleanups = append(cleanups, func() { bs.Close() })
 		}
 		embedded = hasEmbedded
+	case "rw":
+		// the index a writable store rebuilds when it RESUMES the file (store.Resume rescans the sections
+		// with its own copy of the indexing loop): blockstore.OpenReadWrite / storage.OpenReadableWritable
+		if wantTooLarge {
+			x.Outcome("rw-skipped")
+			return // resuming does not apply MaxIndexCidSize to what is already in the file
+		}
+		ropts := append([]carv2.Option{}, opts...)
+		switch cs.Cont {
+		case "v1", "v1null":
+			ropts = append(ropts, carv2.WriteAsCarV1(true))
+		case "v2pad", "v2idx", "v2idxnull":
+			ropts = append(ropts, carv2.UseDataPadding(5))
+		case "v2bigpad":
+			ropts = append(ropts, carv2.UseDataPadding(40001))
+		case "v2null":
+			ropts = append(ropts, carv2.UseDataPadding(3))
+		}
+		var rcids []cid.Cid
+		for _, r := range rootRaws {
+			c, cerr := cid.Cast(r)
+			if cerr != nil {
+				panic(cerr)
+			}
+			rcids = append(rcids, c)
+		}
+		pth := writeFile("c03-rw.car")
+		if srcKind == "bs" {
+			var bs *blockstore.ReadWrite
+			bs, err = blockstore.OpenReadWrite(pth, rcids, ropts...)
+			if err == nil {
+				idx = bs.Index()
+				cleanups = append(cleanups, func() { bs.Discard() })
+			}
+		} else {
+			f, ferr := os.OpenFile(pth, os.O_RDWR, 0o644)
+			if ferr != nil {
+				panic(ferr)
+			}
+			cleanups = append(cleanups, func() { f.Close() })
+			var st *storage.StorageCar
+			st, err = storage.OpenReadableWritable(f, rcids, ropts...)
+			if err == nil {
+				idx = st.Index()
+			}
+		}
 	case "st":
 		var st storage.ReadableCar
 		st, err = storage.OpenReadable(mkAt(srcKind), opts...)
@@ -922,6 +968,27 @@ func genC03(tier string, emit func(any)) {
 		}
 	}
 
+	// ---- M6: the index a writable store rebuilds on RESUME (its own copy of the scanning loop): the special
+	// sequences and all sequences up to length 2 (quick: 1) x resumable containers x both front ends, with
+	// StoreIdentityCIDs on (a resumed file is indexed as it is)
+	var rwSeqs [][]string
+	rl := 1
+	if thorough {
+		rl = 2
+	}
+	kit.Seqs(names, rl, func(sq []string) { rwSeqs = append(rwSeqs, sq) })
+	rwSeqs = append(rwSeqs, special...)
+	for _, sq := range rwSeqs {
+		for _, cont := range []string{"v1", "v2", "v2pad", "v2idx", "v2bigpad", "v1null", "v2null", "v2idxnull"} {
+			for _, api := range []string{"rw-bs", "rw-st"} {
+				emit(C03Case{Seq: sq, Cont: cont, Kind: "insertion", API: api, StoreID: true, ZeroEOF: nullCont(cont)})
+				if nullCont(cont) {
+					emit(C03Case{Seq: sq, Cont: cont, Kind: "insertion", API: api, StoreID: true}) // must be refused
+				}
+			}
+		}
+	}
+
 	// ---- M5: a populated bucket (41 records of one width and code, one digest twice)
 	many := c03ManySeq()
 	for _, cont := range contsAll {
@@ -951,7 +1018,7 @@ func init() {
 			"GenerateIndexFromFile; ReadOrGenerateIndex over bytes.Reader, *os.File, bare ReadSeeker, short-read ReadSeeker; blockstore.NewReadOnly over ReaderAt-only, bytes.Reader, *os.File; blockstore.OpenReadOnly (mmap); " +
 			"storage.OpenReadable over ReaderAt-only, bytes.Reader, *os.File) x StoreIdentityCIDs x ZeroLengthSectionAsEOF x MaxIndexCidSize {default, 40, 36, 35, 34, 33, 2047, 2048, 2049}. " +
 			"Matrices: M0 = original full cross on the original entry points; M1 = ZeroLengthSectionAsEOF on unpadded CARv2 (sequences <= 2); M2 = added entry points/containers/explicit codec/prefix+collision blocks on sequences one step shorter than M0 " +
-			"(thorough: M0's length-3 sequences through the added entry points with default limits on v1/v2pad/v2idx/v2null); M3 = header shapes x all entry points on sequences <= 1 (quick) / 2 (thorough) over 6 blocks; M4 = size-limit boundaries; M5 = populated bucket. " +
+			"(thorough: M0's length-3 sequences through the added entry points with default limits on v1/v2pad/v2idx/v2null); M3 = header shapes x all entry points on sequences <= 1 (quick) / 2 (thorough) over 6 blocks; M4 = size-limit boundaries; M5 = populated bucket; M6 = the index a writable store rebuilds when it resumes the file (blockstore.OpenReadWrite, storage.OpenReadableWritable; StoreIdentityCIDs on) on every resumable container, null padding with and without the option. " +
 			"Oracle per execution: codec/type of the returned index; for every alphabet CID, extra CID, archive CID and an absent CID: GetAll = reference offsets (by multihash, or digest for the digest-only kinds), every reported offset " +
 			"is a section start carrying that key (checked on go-car's answer), ErrNotFound otherwise (the insertion index may match by digest or by multihash; storage.OpenReadable may return an insertion index or either codec index, the matching rule follows the index returned), " +
 			"GetAll stops after the callback returns false (at match 1..3: exactly that many callbacks, no error, distinct expected offsets; no order), GetFirst, InsertionIndex.Get (either matching rule); ForEach multiset (by digest for a digest-only codec index), " +
